@@ -485,7 +485,7 @@ def run_hook(case, mon):
         mon.count("hooked_statements", n)
 
 
-LEAVES = ["interval", "boolean", "array", "json", "string-backslash", "number", "field", "table", "subquery", "custom-function"]
+LEAVES = ["interval", "interval-hint-mysql", "interval-hint-postgresql", "boolean", "array", "json", "string-backslash", "number", "field", "table", "subquery", "custom-function"]
 
 
 def make_leaf(name, Q):
@@ -493,6 +493,10 @@ def make_leaf(name, Q):
     t = r["Table"]("tprobe")
     if name == "interval":
         return r["Interval"](days=3, hours=4)
+    if name == "interval-hint-mysql":  # the constructor's dialect= argument is a hint of the caller, not the statement's dialect
+        return r["Interval"](days=3, hours=4, dialect=r["Dialects"].MYSQL)
+    if name == "interval-hint-postgresql":
+        return r["Interval"](days=3, hours=4, dialect=r["Dialects"].POSTGRESQL)
     if name == "boolean":
         return r["ValueWrapper"](True)
     if name == "array":
@@ -549,6 +553,14 @@ def run_term(case, mon):
         mon.add("term_render_raises", "%s:%s:%s" % (case["e"], case["leaf"], type(ex).__name__))
         return
     mon.count("term_embeddings_rendered")
+    if case["leaf"].startswith("interval") and case["mode"] == "inline":
+        # the literal's quoting form is the rendering dialect's: INTERVAL '3 4' DAY_HOUR (MySQL, Oracle) / INTERVAL '3 4 DAY_HOUR'
+        want = "INTERVAL '3 4' DAY_HOUR" if fam in ("mysql", "oracle") else "INTERVAL '3 4 DAY_HOUR'"
+        mon.count("interval_forms_checked")
+        if want not in sql:
+            mon.violation("interval-form:term-operand:%s" % fam, "%s: %s in slot %d of %s is not written in the dialect's form %r: %r" % (
+                d, case["leaf"], case["slot"], case["e"], want, sql[:200]))
+            return
     mon.add("term_cells", "%s#%d|%s" % (case["e"], case["slot"], case["leaf"]))
     bad = context_fault(tree, ctx0, case["mode"])
     if bad:
